@@ -6,6 +6,7 @@ CONSTANTS
   Kinds = {"text", "walk", "tree"}
   LastBy = "identity"
   ResetIdx = TRUE
+  OpsAtEnd = 2
   Interleave = FALSE
   BadArgs = TRUE
 INVARIANTS HistoryIndependent MarkdownEquivalent NoDuplicateSiblings
